@@ -705,6 +705,72 @@ def r11_9(ctx, counts) -> RuleResult:
         raise AnalysisError(f'only {sites} calls of fromdatetime located')
     return res
 
+def r11_10(ctx, counts) -> RuleResult:
+    """a timezone is applied to a copy, never to the value received"""
+    from ..engine.cfg import CFG
+    model: Model = ctx.model
+    res = RuleResult(
+        'R11.10', 'TZINFO-STORE-ON-OWN-COPY',
+        'Date/time values are values: applying the implicit timezone or adjusting to another '
+        'one yields a new value. Every store `X.tzinfo = …` on a name other than `self` in the '
+        'package is reached only after X was bound, in the same function, to the result of a '
+        'call that builds a value (copy(), a constructor, fromdelta(), an arithmetic result) — '
+        'never while X is still a parameter, an operand fetched with get_argument/get_operands, '
+        'a loop variable over such values or an alias of one. Otherwise a value bound to a '
+        'variable keeps the implicit timezone of the first expression that used it.')
+    sources = {'get_argument', 'get_operands', 'get_atomized_operand', 'evaluate', 'select',
+               'atomization', 'data_value', 'cast'}
+    n = 0
+    for f in sorted(model.all_functions(), key=lambda q: q.key):
+        if not f.module.name.startswith('elementpath'):
+            continue
+        stores = [(x, t) for x in walk_local(f.node) if isinstance(x, ast.Assign)
+                  for t in x.targets if isinstance(t, ast.Attribute) and t.attr == 'tzinfo'
+                  and isinstance(t.value, ast.Name) and t.value.id != 'self']
+        if not stores:
+            continue
+        cfg = CFG(f.node)
+        for x, t in stores:
+            var = t.value.id                                   # type: ignore[attr-defined]
+            n += 1
+
+            def fresh_def(nd) -> bool:
+                a = nd.ast
+                if nd.kind != 'stmt':
+                    return False
+                if isinstance(a, ast.AugAssign) and isinstance(a.target, ast.Name) \
+                        and a.target.id == var:
+                    return True
+                if isinstance(a, (ast.Assign, ast.AnnAssign)) and a.value is not None:
+                    tg = a.targets if isinstance(a, ast.Assign) else [a.target]
+                    if any(isinstance(q, ast.Name) and q.id == var for q in tg):
+                        v = a.value
+                        if isinstance(v, ast.BinOp):
+                            return True
+                        return isinstance(v, ast.Call) \
+                            and dotted(v.func).split('.')[-1] not in sources
+                return False
+            holder = next((nd for nd in cfg.nodes if nd.kind == 'stmt' and nd.ast is x), None)
+            if holder is None:
+                raise AnalysisError(f'{f.key}: store L{x.lineno} not in the CFG')
+            path = cfg.path_avoiding([cfg.entry], lambda m: m is holder, fresh_def,
+                                     skip_start=False)
+            res.instances.append(f'{f.key}: L{x.lineno} `{stmt_text(x)[:40]}` on a value built '
+                                 f'in the function on every path={path is None}')
+            if path is None:
+                res.ok()
+            else:
+                res.fail(finding('R11.10', f, x, f'{var}.tzinfo store on a received value',
+                                 f'`{stmt_text(x)[:50]}` is reached on a path where `{var}` was '
+                                 f'not rebound to a copy or a newly built value: the timezone is '
+                                 f'written into the value the caller (a variable binding, a '
+                                 f'literal of the token tree) still holds',
+                                 path=cfg.fmt_path(path)))
+    counts['tzinfo_stores'] = n
+    if n < 2:
+        raise AnalysisError(f'only {n} tzinfo stores on values located (4 on the pinned tree)')
+    return res
+
 
 def run(ctx) -> dict:
     counts: dict[str, int] = {}
@@ -714,7 +780,7 @@ def run(ctx) -> dict:
     return {
         'results': [r11_1(ctx, counts), r11_2(ctx, counts), r11_3(ctx, counts), _clones(ctx, counts),
                     r11_5(ctx, counts), r11_6(ctx, counts), r11_7(ctx, counts), r11_8(ctx, counts),
-                    r11_9(ctx, counts), _state],
+                    r11_9(ctx, counts), r11_10(ctx, counts), _state],
         'counts': counts,
         'explanation':
             'Only the last sentence of C11 is decided ("the component-extraction functions '
